@@ -99,6 +99,7 @@ static int parseVal(const char* s, const char** ty, V* v) {
 }
 int main(void) {
   static char line[1024];
+  setvbuf(stdout, NULL, _IOLBF, 0);   /* every answer reaches the pipe before the next request runs: a crash loses nothing */
   while (fgets(line, sizeof line, stdin)) {
     char* w[8]; int n = 0; char* p = strtok(line, " \n");
     while (p && n < 8) { w[n++] = p; p = strtok(NULL, " \n"); }
@@ -146,13 +147,31 @@ def build(repo_copy, workdir, ops, big_endian=False, cc="gcc", extra=()):
 
 
 def run_lines(exe, lines, timeout=600):
+    """One answer per request line.  If the harness process dies (the REAL code under test crashed: SIGFPE,
+    SIGSEGV, abort…) on some line, that line is answered `crash <signal>` and the rest is run in a fresh
+    process: a crash of the code under test is a result, not a tool failure."""
     import subprocess
-    p = subprocess.run([exe], input="\n".join(lines) + "\n", stdout=subprocess.PIPE, stderr=subprocess.PIPE,
-                       text=True, timeout=timeout)
-    out = p.stdout.splitlines()
-    if len(out) != len(lines):
-        raise RuntimeError(f"harness answered {len(out)} lines for {len(lines)} (rc={p.returncode}) {p.stderr[-300:]}")
-    return out
+    answers = []
+    pos = 0
+    crashes = 0
+    while pos < len(lines):
+        chunk = lines[pos:]
+        p = subprocess.run([exe], input="\n".join(chunk) + "\n", stdout=subprocess.PIPE, stderr=subprocess.PIPE,
+                           text=True, timeout=timeout)
+        out = p.stdout.splitlines()
+        if len(out) >= len(chunk):
+            answers += out[:len(chunk)]
+            break
+        if p.returncode == 0:
+            raise RuntimeError(f"harness answered {len(out)} lines for {len(chunk)} (rc=0) {p.stderr[-300:]}")
+        # the line after the last complete answer killed the process
+        answers += out
+        answers.append(f"crash rc={p.returncode}")
+        pos += len(out) + 1
+        crashes += 1
+        if crashes > 200:
+            raise RuntimeError("harness keeps crashing (>200 crashing inputs)")
+    return answers
 
 
 # ----------------------------------------------------------------------------- operand generators
